@@ -57,7 +57,7 @@ def placeholders(repo: Repo, n: int) -> list[str]:
     if len(calls) != 1:
         raise AnalysisError("_codegen.make_func_code: call func(<placeholders>) not found")
     try:
-        v = Evaluator({f.params[0]: n}).ev(calls[0].args[0])
+        v = Evaluator({f.params[0]: n}).ev(resolve_local(f.node, calls[0].args[0]))
     except Refused as e:
         raise AnalysisError(f"_codegen placeholder expression is outside the evaluator's whitelist: {e}") from e
     if not (isinstance(v, list) and len(v) == n and all(isinstance(x, str) for x in v) and len(set(v)) == n):
